@@ -452,86 +452,90 @@ fn cycle(pattern: &[Ev], times: usize) -> Vec<Ev> {
 
 /// Long sessions: short cycles of keys repeated tens of thousands of times as checked prefill (every step under
 /// the monitors), so that a counter, generation number or postponed compaction that a change adds overflows or
-/// fires (u8 after 256, u16 after 65 536 repetitions). Costs about a microsecond per key.
+/// fires (u8 after 256, every 4096th edit, u16 after 65 536). Three kinds of session: (1) mixed cycles, each
+/// started after 0..3 extra permanent characters so that a "every N-th edit" event meets every phase of the
+/// cycle; (2) monotone runs of one key or key pair (70 000 keys without any other call in between: 65 536
+/// modifications without a single length query), followed by a probing tail; (3) the same after a history has
+/// been built. About a microsecond per key.
 pub fn endurance(rep: &mut Report, tier: &str, seed: u64, prop: &'static str) {
     let quick = tier == "quick";
-    let n = if quick { 22_000 } else { 70_000 };
+    let n = if quick { 70_000 } else { 280_000 };
     let mut dcaps = caps(tier);
     dcaps.max_depth = 1;
     let lf = k(Key::Lf);
-    let (mon, alphabet, cb, hb, paths): (Mon, Vec<Ev>, usize, usize, Vec<(String, Vec<Ev>)>) = match prop {
+    let up = k(Key::Up);
+    let down = k(Key::Down);
+    let left = k(Key::Left);
+    let right = k(Key::Right);
+    let bs = k(Key::Bs);
+    let tab = k(Key::Tab);
+    let probe: Vec<Ev> = vec![left.clone(), right.clone(), ch('c'), left.clone(), bs.clone(), right.clone(), ch('é'), lf.clone(), up.clone(), lf.clone()];
+    // monotone runs, each after a small history exists and a line is being edited, each followed by the probe
+    let monotone = |label: &str, pat: &[Ev]| -> (String, Vec<Ev>) {
+        let mut p = submit("ab");
+        p.extend(submit("b"));
+        p.extend(type_str("a"));
+        p.extend(cycle(pat, n / pat.len()));
+        p.extend(probe.clone());
+        (format!("'ab' Enter 'b' Enter 'a', then [{}] x{}, then a probing tail", label, n / pat.len()), p)
+    };
+    let mut paths: Vec<(String, Vec<Ev>)> = vec![
+        monotone("Up Down", &[up.clone(), down.clone()]),
+        monotone("Up", &[up.clone()]),
+        monotone("Down", &[down.clone()]),
+        monotone("Backspace", &[bs.clone()]),
+        monotone("Enter", &[lf.clone()]),
+        monotone("Left Right", &[left.clone(), right.clone()]),
+        monotone("Tab", &[tab.clone()]),
+        monotone("a Backspace", &[ch('a'), bs.clone()]),
+    ];
+    // mixed cycles from four phase offsets
+    for extra in 0..4usize {
+        let mut p = type_str(&"x".repeat(extra));
+        p.extend(cycle(&[ch('é'), ch('𝄞'), bs.clone(), bs.clone()], n / 8));
+        p.extend(probe.clone());
+        paths.push((format!("{} permanent characters, then [é 𝄞 Backspace Backspace] x{}", extra, n / 8), p));
+        let mut p = type_str(&"x".repeat(extra));
+        p.extend(cycle(&[ch('a'), left.clone(), ch('é'), right.clone(), bs.clone(), bs.clone()], n / 12));
+        p.extend(probe.clone());
+        paths.push((format!("{} permanent characters, then [a Left é Right Backspace Backspace] x{}", extra, n / 12), p));
+    }
+    let (mon, alphabet, cb, hb): (Mon, Vec<Ev>, usize, usize) = match prop {
         "C10" => {
             let mut round: Vec<Ev> = vec![];
             for l in ["a", "b", "ab", "ba", "aa", "bb", "aab"] {
                 round.extend(type_str(l));
                 round.push(lf.clone());
             }
+            paths.push((format!("7 distinct lines submitted round-robin x{}", n / 21), cycle(&round, n / 21)));
+            paths.push((format!("[a Enter b Enter Up Up Enter Up Down Down] x{}", n / 10), {
+                let mut p = submit("ab");
+                p.extend(cycle(&[ch('a'), lf.clone(), ch('b'), lf.clone(), up.clone(), up.clone(), lf.clone(), up.clone(), down.clone(), down.clone()], n / 10));
+                p
+            }));
+            (Mon { history: true, invariants: true, ..Default::default() }, vec![ch('a'), ch('b'), bs.clone(), lf.clone(), up.clone(), down.clone()], 8, 24)
+        }
+        "C01" => {
+            paths.push((format!("[a blank b Enter] x{}", n / 4), cycle(&[ch('a'), ch(' '), ch('b'), lf.clone()], n / 4)));
+            paths.push((format!("[a Up Enter Tab] x{}", n / 4), cycle(&[ch('a'), up.clone(), lf.clone(), tab.clone()], n / 4)));
+            (Mon { dispatch: true, invariants: true, ..Default::default() }, vec![ch('a'), ch(' '), bs.clone(), left.clone(), lf.clone()], 8, 8)
+        }
+        "C05" => (Mon { editor: true, invariants: true, ..Default::default() }, vec![ch('a'), ch('é'), bs.clone(), left.clone(), right.clone()], 8, 8),
+        _ => {
+            paths.push((
+                format!("[a é Left write(x) Right Backspace Up Down Tab Enter set_prompt set_prompt] x{}", n / 12),
+                cycle(&[ch('a'), ch('é'), left.clone(), wr("x"), right.clone(), bs.clone(), up.clone(), down.clone(), tab.clone(), lf.clone(), Ev::SetPrompt("é> "), Ev::SetPrompt("$ ")], n / 12),
+            ));
             (
-                Mon { history: true, invariants: true, ..Default::default() },
-                vec![ch('a'), ch('b'), k(Key::Bs), lf.clone(), k(Key::Up), k(Key::Down)],
+                if prop == "C15" { Mon { flush: true, invariants: true, ..Default::default() } } else { Mon { term: true, invariants: true, ..Default::default() } },
+                vec![ch('a'), bs.clone(), left.clone(), up.clone(), lf.clone(), wr("x"), Ev::SetPrompt("é> ")],
                 8,
-                24,
-                vec![
-                    (format!("7 distinct lines submitted round-robin x{}", n / 7), cycle(&round, n / 7)),
-                    (format!("[a Enter b Enter Up Up Enter Up Down Down] x{}", n / 3), {
-                        let mut p = submit("ab");
-                        p.extend(cycle(&[ch('a'), lf.clone(), ch('b'), lf.clone(), k(Key::Up), k(Key::Up), lf.clone(), k(Key::Up), k(Key::Down), k(Key::Down)], n / 3));
-                        p
-                    }),
-                    (format!("[a Enter] x{} then [Up] x300 [Down] x300", n), {
-                        let mut p = cycle(&[ch('a'), lf.clone()], n);
-                        p.extend(submit("b"));
-                        p.extend(cycle(&[k(Key::Up)], 300));
-                        p.extend(cycle(&[k(Key::Down)], 300));
-                        p
-                    }),
-                ],
+                8,
             )
         }
-        "C01" => (
-            Mon { dispatch: true, invariants: true, ..Default::default() },
-            vec![ch('a'), ch(' '), k(Key::Bs), k(Key::Left), lf.clone()],
-            8,
-            8,
-            vec![
-                (format!("[a blank b Enter] x{}", n), cycle(&[ch('a'), ch(' '), ch('b'), lf.clone()], n)),
-                (format!("[a Left b Backspace Enter Enter] x{}", n / 2), cycle(&[ch('a'), k(Key::Left), ch('b'), k(Key::Bs), lf.clone(), lf.clone()], n / 2)),
-                (format!("[a Up Enter Tab] x{}", n / 2), cycle(&[ch('a'), k(Key::Up), lf.clone(), k(Key::Tab)], n / 2)),
-            ],
-        ),
-        "C05" => (
-            Mon { editor: true, invariants: true, ..Default::default() },
-            vec![ch('a'), ch('é'), k(Key::Bs), k(Key::Left), k(Key::Right)],
-            6,
-            0,
-            vec![
-                (format!("[a Left é Right Backspace Backspace] x{}", n), cycle(&[ch('a'), k(Key::Left), ch('é'), k(Key::Right), k(Key::Bs), k(Key::Bs)], n)),
-                (format!("[a a a a a a a Left x7 Right x7 Backspace x7] x{}", n / 10), {
-                    let mut pat = rep_ev(ch('a'), 7);
-                    pat.extend(rep_ev(k(Key::Left), 7));
-                    pat.extend(rep_ev(k(Key::Right), 7));
-                    pat.extend(rep_ev(k(Key::Bs), 7));
-                    cycle(&pat, n / 10)
-                }),
-            ],
-        ),
-        _ => (
-            // C06 / C15: the screen and the flush discipline over a long session
-            if prop == "C15" { Mon { flush: true, invariants: true, ..Default::default() } } else { Mon { term: true, invariants: true, ..Default::default() } },
-            vec![ch('a'), k(Key::Bs), k(Key::Left), k(Key::Up), lf.clone(), wr("x"), Ev::SetPrompt("é> ")],
-            6,
-            8,
-            vec![(
-                format!("[a é Left write(x) Right Backspace Up Down Tab Enter set_prompt] x{}", n / 3),
-                cycle(
-                    &[ch('a'), ch('é'), k(Key::Left), wr("x"), k(Key::Right), k(Key::Bs), k(Key::Up), k(Key::Down), k(Key::Tab), lf.clone(), Ev::SetPrompt("é> "), Ev::SetPrompt("$ ")],
-                    n / 3,
-                ),
-            )],
-        ),
     };
     let total: usize = paths.iter().map(|(_, p)| p.len()).sum();
-    let mut cfg = base_cfg(prop, format!("endurance cb={} hb={}: {} long sessions of repeated cycles, {} keys in all, every step under the monitors", cb, hb, paths.len(), total), cb, hb, alphabet, mon);
+    let mut cfg = base_cfg(prop, format!("endurance cb={} hb={}: {} long sessions of repeated keys and cycles, {} keys in all, every step under the monitors", cb, hb, paths.len(), total), cb, hb, alphabet, mon);
     cfg.prefilled = paths;
     if prop == "C05" || prop == "C10" || prop == "C01" {
         run_raw(rep, cfg, &dcaps, seed);
